@@ -33,7 +33,7 @@ CHECKS = {
     "C03": dict(
         category="exploration", design_ref="DESIGN.md §3.3, §4 C03",
         technique="TLA+ definition of structural equivalence (positional bijection of values and blocks, IRIso.tla) evaluated by TLC as reference; real is_structurally_equivalent compared on generated IR, clones and single-point mutants",
-        text="For generated trees, their clones and clones with one mutation of each kind (result/arg type, attribute added/removed/changed, property changed or moved to the attribute dictionary, operand rewired internally or to an outside value, successor, block order, op order, op name, extra op) the real check is asked in both directions on ops (detached and attached), regions and blocks; TLC evaluates the property's definition on the projection and every disagreement is a violation.",
+        text="For generated trees and parseable corpus chunks, their clones and clones with one mutation of each kind (result/arg type, attribute added/removed/changed, property changed or moved to the attribute dictionary, operand rewired internally or to an outside value, successor, block order, op order, op name, extra op) the real check is asked in both directions on ops (detached and attached), regions and blocks; TLC evaluates the property's definition on the projection and every disagreement is a violation.",
         note="Trusted: IRIso.tla is the property's relation; attribute/type equality is Python == via interned tokens; mutants are produced with the real API."),
     "C11": dict(
         category="model_checking", design_ref="DESIGN.md §3.4, §4 C11",
@@ -88,7 +88,7 @@ CHECKS = {
     "C04": dict(
         category="exploration", design_ref="DESIGN.md §3.2, §4 C04",
         technique="TLA+ model of printer name allocation (Naming.tla, Injective checked by TLC over every hint assignment) replayed on real IR, and TLC-judged structural equivalence (IRIso.tla) of original and re-parsed IR on the joint projection",
-        text="Every assignment of the model's raw-hint alphabet to 4 values and every pair of block hints is applied to real IR, printed in generic form, parsed in a fresh context; TLC judges original ~ re-parsed (names, attributes, properties, types, successors, nesting, use-def incl. forward references); printing twice, printing the clone and re-printing the parse must give the same text. Same for generated test-dialect trees with random hints and forward references and for every parseable chunk of the repository's .mlir corpus.",
+        text="Every assignment of the model's raw-hint alphabet to 4 values and every pair of block hints is applied to real IR, printed in generic form, parsed in a fresh context; TLC judges original ~ re-parsed (names, attributes, properties, types, successors, nesting, use-def incl. forward references); printing twice, printing the clone and re-printing the parse must give the same text. Same for generated test-dialect trees with random hints and forward references, for every parseable chunk of the repository's .mlir corpus, and for the IR that the corpus files' own RUN pipelines leave (pass outputs).",
         note="Trusted: IRIso.tla as the definition of structural equivalence; attribute values compared by Python == after re-parse. Five defects repaired (fix: commits), one open finding (dense_resource keys renamed by the process-global blob storage)."),
     "C28": dict(
         category="translation_validation", design_ref="DESIGN.md §4 C28",
